@@ -152,7 +152,7 @@ class KList(Kind):
             raise TypeError(f'cannot store {v!r} as {self.name}')
         if v.ek is None:
             v.ek = self.elem
-            v.arr = z3.K(z3.IntSort(), default_term(self.elem))
+            v.arr = empty_array(self.elem)
         return self.sort().constructor(0)(v.arr, v.n)
 
     def fresh(self, ip, hint='l'):
@@ -645,7 +645,7 @@ def tuple_to_list(v, ek=None):
         ek = kind_of(items[0]) if items else None
     if ek is None:
         return VList(None, z3.IntVal(0), None)
-    arr = z3.K(z3.IntSort(), default_term(ek))
+    arr = empty_array(ek)
     for i, x in enumerate(items):
         arr = z3.Store(arr, i, ek.unwrap(x))
     return VList(arr, z3.IntVal(len(items)), ek)
@@ -695,3 +695,9 @@ def exc_is_subclass(typ, parent):
             raise KeyError(f'unknown exception class {typ}')
         typ = EXC_PARENT[typ]
     return False
+
+
+def empty_array(kind):
+    '''The array of an empty list: cells at and beyond the length are never looked at, so any array will do - a
+    named constant per element kind (constant arrays over non-value defaults are z3-only syntax).'''
+    return z3.Const(f'emptyarr_{kind.name}', z3.ArraySort(z3.IntSort(), kind.sort()))
